@@ -252,7 +252,10 @@ def _batch(pid: str, seed: int, start: int, count: int, deadline: float, known: 
 
 def write_replay(pid: str, seed: int, item: dict) -> str:
     prop = load_prop(pid)
-    r = exec_tape(prop, values=item["tape"], keep_labels=True)
+    if item.get("sweep_params") is not None:
+        r = prop.run_sweep(item["sweep_params"])
+    else:
+        r = exec_tape(prop, values=item["tape"], keep_labels=True)
     os.makedirs(os.path.join(OUT, "replays"), exist_ok=True)
     n = 0
     while True:
@@ -265,6 +268,7 @@ def write_replay(pid: str, seed: int, item: dict) -> str:
         "locus": item["locus"], "detail": item["detail"], "tape": item["tape"],
         "tape_labels": r.excused.get("labels", []), "cfg": r.cfg, "pop": r.pop, "digest": r.digest,
         "violations": [[v.clause, v.locus, v.detail] for v in r.violations], "trace": r.log,
+        "sweep_params": item.get("sweep_params"),
     }
     with open(path, "w") as f:
         json.dump(doc, f, indent=1, default=str)
@@ -276,7 +280,10 @@ def replay_file(path: str, verbose: bool = True) -> int:
         doc = json.load(f)
     pid = doc["property"]
     prop = load_prop(pid)
-    r = exec_tape(prop, values=doc["tape"])
+    if doc.get("sweep_params") is not None:
+        r = prop.run_sweep(doc["sweep_params"])
+    else:
+        r = exec_tape(prop, values=doc["tape"])
     fp = f"{doc['clause']}|{doc['locus']}"
     hit = [v for v in r.violations if v.fp() == fp]
     if verbose:
@@ -335,6 +342,78 @@ def run_regress(pid: str, known: dict) -> tuple[list, int, dict]:
 
 
 # ---------------------------------------------------------------------------------------------
+# sweeps: fixed, enumerated sets of simulated runs a property defines (prop.SWEEP(tier) -> list of JSON-able
+# parameter objects, prop.run_sweep(params) -> RunResult). Executed before the seeded search.
+
+
+def _sweep_batch(pid: str, items: list, known: dict):
+    faulthandler.dump_traceback_later(900, exit=True)
+    prop = load_prop(pid)
+    out = {"runs": 0, "viol": [], "known": {}, "errors": [], "sigs": set(), "nt": 0, "events": 0, "sim_ms": 0, "probes": {}, "faults": {}, "sample": None}
+    for params in items:
+        try:
+            r = prop.run_sweep(params)
+        except Exception:  # noqa: BLE001
+            out["errors"].append(f"sweep {params}: " + traceback.format_exc()[-1200:])
+            if len(out["errors"]) > 3:
+                break
+            continue
+        out["runs"] += 1
+        out["sigs"].add(r.sig)
+        out["nt"] += 1 if r.nontrivial else 0
+        out["events"] += r.events
+        out["sim_ms"] += r.sim_ms
+        for k, v in r.probes.items():
+            out["probes"][k] = out["probes"].get(k, 0) + v
+        for k, v in r.faults.items():
+            out["faults"][k] = out["faults"].get(k, 0) + v
+        if out["sample"] is None and r.nontrivial:
+            out["sample"] = {"sweep_params": params, "trace": r.log[:40]}
+        for v in r.violations:
+            kid = match_known(known, pid, v)
+            if kid is not None:
+                out["known"][kid] = out["known"].get(kid, 0) + 1
+            elif len(out["viol"]) < 3 and v.fp() not in {x["fp"] for x in out["viol"]}:
+                out["viol"].append({"fp": v.fp(), "clause": v.clause, "locus": v.locus, "detail": v.detail, "index": "sweep",
+                                    "tape": [], "orig_len": 0, "sweep_params": params})
+    faulthandler.cancel_dump_traceback_later()
+    cleanup_sandbox_root()
+    out["sigs"] = list(out["sigs"])
+    return out
+
+
+def run_sweeps(pid: str, prop, tier: str, known: dict, workers: int):
+    fn = getattr(prop, "SWEEP", None)
+    if fn is None:
+        return None
+    items = list(fn(tier))
+    res = {"cells": len(items), "runs": 0, "viol": [], "known": {}, "errors": [], "sigs": set(), "nt": 0, "events": 0, "sim_ms": 0,
+           "probes": {}, "faults": {}, "samples": []}
+    if not items:
+        return res
+    ctx = mp.get_context("fork")
+    chunk = max(1, len(items) // (workers * 4))
+    jobs = [items[i : i + chunk] for i in range(0, len(items), chunk)]
+    with ProcessPoolExecutor(max_workers=workers, mp_context=ctx) as ex:
+        for o in ex.map(_sweep_batch, [pid] * len(jobs), jobs, [known] * len(jobs)):
+            res["runs"] += o["runs"]
+            res["nt"] += o["nt"]
+            res["events"] += o["events"]
+            res["sim_ms"] += o["sim_ms"]
+            res["sigs"].update(o["sigs"])
+            res["errors"].extend(o["errors"])
+            for key in ("probes", "faults", "known"):
+                for k, v in o[key].items():
+                    res[key][k] = res[key].get(k, 0) + v
+            for it in o["viol"]:
+                if it["fp"] not in {x["fp"] for x in res["viol"]}:
+                    res["viol"].append(it)
+            if o["sample"] and len(res["samples"]) < 2:
+                res["samples"].append(o["sample"])
+    return res
+
+
+# ---------------------------------------------------------------------------------------------
 # main search
 
 
@@ -352,12 +431,26 @@ def check(pid: str, tier: str, seed: int, budget_s: float | None, workers: int |
     globals_found = env.scan_process_globals()
 
     viol_items, n_regress, known_hits = run_regress(pid, known)
+    sweep = None
+    sweep_error = None
+    try:
+        sweep = run_sweeps(pid, prop, tier, known, workers)
+    except Exception:  # noqa: BLE001
+        sweep_error = traceback.format_exc()[-1500:]
+    if sweep is not None:
+        for it in sweep["viol"]:
+            if it["fp"] not in {x["fp"] for x in viol_items}:
+                viol_items.append(it)
+        for k, v in sweep["known"].items():
+            known_hits[k] = known_hits.get(k, 0) + v
+        if sweep["errors"]:
+            sweep_error = "; ".join(sweep["errors"][:2])
     tot = {
         "runs": 0, "nontrivial": 0, "sigs": set(), "nt_sigs": set(), "nstates": 0, "probes": {}, "faults": {},
         "sim_ms": 0, "events": 0, "calls": 0, "pops": {}, "known": dict(known_hits), "excused": {}, "samples": [],
         "det_checked": 0, "errors": [], "more_viol": 0,
     }
-    deadline = t0 + budget_s
+    deadline = max(t0 + budget_s, time.time() + budget_s / 2)  # sweeps never starve the seeded search
     nxt = 0
     ctx = mp.get_context("fork")
     harness_error = None
@@ -405,6 +498,8 @@ def check(pid: str, tier: str, seed: int, budget_s: float | None, workers: int |
         harness_error = traceback.format_exc()[-2000:]
     if tot["errors"] and not harness_error:
         harness_error = "; ".join(tot["errors"][:3])
+    if sweep_error and not harness_error:
+        harness_error = "sweep: " + sweep_error
 
     # verdict
     rc = 0
@@ -429,6 +524,16 @@ def check(pid: str, tier: str, seed: int, budget_s: float | None, workers: int |
             print(f"KNOWN-FINDING: property={pid} {k['id']}: {k['what']} (seen in {n} runs of this batch)")
     wall = time.time() - t0
     ev = build_evidence(pid, prop, tier, seed, tot, wall, n_regress, viol_items, globals_found, harness_error)
+    if sweep is not None:
+        cov = ev["coverage"]
+        cov["evaluations"] += sweep["runs"]
+        cov["sweep"] = {
+            "what": getattr(prop, "SWEEP_RULE", ""), "cells": sweep["cells"], "runs": sweep["runs"], "nontrivial_runs": sweep["nt"],
+            "distinct_schedules": len(sweep["sigs"]), "events": sweep["events"], "simulated_seconds": round(sweep["sim_ms"] / 1000, 1),
+            "faults_fired": sweep["faults"], "probes": sweep["probes"], "complete": sweep["runs"] == sweep["cells"],
+        }
+        cov["samples"] = (cov["samples"] + sweep["samples"])[:4]
+        print(f"{pid}: sweep cells={sweep['cells']} runs={sweep['runs']} nontrivial={sweep['nt']} distinct={len(sweep['sigs'])}")
     os.makedirs(os.path.join(OUT, "evidence"), exist_ok=True)
     with open(os.path.join(OUT, "evidence", f"{pid}.json"), "w") as f:
         json.dump(ev, f, indent=1, default=str)
